@@ -66,3 +66,17 @@ M("c13-embed-other-file", "C13", "V",
   ("goag.go", "specRaw, err := os.ReadFile(specFilename)", "specRaw, err := os.ReadFile(filepath.Clean(specFilename))"))
 M("c13-preserve-direct-quote", "C13", "S",
   ("generator/files.go", "\"const SpecFile string = \" + encodeRawFileAsString(string(fileContent))", "\"const SpecFile string = \" + strconv.Quote(string(fileContent))"))
+
+# ------------------------------------------------------------------ C01 (S1)
+M("c01-swallow-format-error", "C01", "V",
+  ("goag.go", "\tif err != nil {\n\t\treturn fmt.Errorf(\"error on format go source (%s): %w\", filepath, err)\n\t}\n", "\tif err != nil {\n\t\tlog.Printf(\"format: %v\", err)\n\t\timportedBs = bs\n\t}\n"))
+M("c01-write-raw", "C01", "V",
+  ("goag.go", "_, err = f.Write(importedBs)", "_ = importedBs\n\t_, err = f.Write(bs)"))
+M("c01-drop-render-error", "C01", "V",
+  ("goag.go", "\t\terr = RenderToFile(path.Join(outDir, \"router.go\"), gen.RouterFile())\n\t\tif err != nil {\n\t\t\treturn fmt.Errorf(\"generate router.go: %w\", err)\n\t\t}\n", "\t\t_ = RenderToFile(path.Join(outDir, \"router.go\"), gen.RouterFile())\n"))
+M("c01-main-logs-instead-of-fatal", "C01", "V",
+  ("cmd/goag/main.go", "log.Fatalf(\"Error on generate: %v\", err)", "log.Printf(\"Error on generate: %v\", err)"))
+M("c01-header-name-split", "C01", "V",
+  ("generator/parameters.go", "out.FieldName = Title(s.Name)", "out.FieldName = PublicFieldName(s.Name)"))
+M("c01-preserve-wrap-message", "C01", "S",
+  ("goag.go", "return fmt.Errorf(\"to bytes: %w\", err)", "return fmt.Errorf(\"render: %w\", err)"))
